@@ -1,5 +1,6 @@
 import SamplyModel.Proto
 import SamplyModel.Model.LibMappings
+import SamplyModel.Model.ProfileThreads
 /-!
 Line protocol for C11. The first line selects what is driven.
 
@@ -17,7 +18,21 @@ Line protocol for C11. The first line selects what is driven.
         (read back from the serialized profile: sample → stackTable.frame → frameTable.address / func →
         funcTable.resource / name → resourceTable.lib → libs[..].name)
 
-Addresses must be below 2^64, relative addresses below 2^32, process numbers below 3 (otherwise `bad-op`).
+`mode threads`  the public `Profile` API with processes and threads created by the case itself; handles are written as
+                their index (the harness checks the `Debug` form of every handle it is given against it and mints
+                handles that were never handed out from a second, larger `Profile`)
+  ops:  `proc` | `thread <p>` | `kadd ..` | `kremove ..` | `padd <p> ..` | `premove <p> ..` | `pclear <p>` (as above)
+        | `frame <t> <addr>` = `handle_for_frame_with_address(thread t, ..)`
+        | `fsym <t> <nt> <addr>` = `handle_for_native_symbol(thread nt, ..)`, then
+          `handle_for_frame_with_address_and_symbol(thread t, .., native symbol, ..)`
+        with `<addr>` = `ip|ra|ara <avma>` | `rip|rra|rara <v> <rel>` (the `RelativeAddressFrom*` variants)
+        | `pdump` = the profile's own tables, recovered from the derived `Debug` output of `Profile`
+  out:  proc / thread → `h <index>` | `panic`;  mapping calls → `ok` | `panic`;  frame / fsym → as in `mode profile`, or
+        `frame orphan` for a thread whose `add_thread` call panicked (it exists but is never serialized);
+        pdump → `tables k <start>:<end>:<rel>:<v>* p0 <..>* p1 <..>* ..` (kernel table, then every process's table, key order)
+
+Addresses must be below 2^64, relative addresses below 2^32, process numbers below 3 (`mode threads`: process and
+thread indices below 64), otherwise `bad-op`.
 -/
 namespace C11
 open LM Proto
@@ -77,9 +92,66 @@ def parseP (l : String) : Option POp :=
     | _ => none
   | _ => none
 
+def parseIdx (s : String) : Option Nat := do
+  let p ← s.toNat?
+  if p < 64 then some p else none
+
+def parseFrameAddrX (ws : List String) : Option FrameAddrX :=
+  match ws with
+  | ["ip", a] => (parseAddr a).map (fun a => .abs (.ip a))
+  | ["ra", a] => (parseAddr a).map (fun a => .abs (.ra a))
+  | ["ara", a] => (parseAddr a).map (fun a => .abs (.ara a))
+  | [kind, v, rel] => do
+    let v ← v.toNat?
+    let rel ← rel.toNat?
+    if rel < u32Lim then
+      match kind with
+      | "rip" => pure (.relIp v rel)
+      | "rra" => pure (.relRa v rel)
+      | "rara" => pure (.relAra v rel)
+      | _ => none
+    else none
+  | _ => none
+
+def parseTh (l : String) : Option TOp :=
+  match words l with
+  | ["proc"] => some .newProc
+  | ["thread", p] => (parseIdx p).map .newThread
+  | ["kadd", s, e, rel, v] => (parseM s e rel v).map .kadd
+  | ["kremove", s] => (parseAddr s).map .kremove
+  | ["padd", p, s, e, rel, v] => do
+    let p ← parseIdx p
+    let m ← parseM s e rel v
+    pure (.padd p m)
+  | ["premove", p, s] => do
+    let p ← parseIdx p
+    let s ← parseAddr s
+    pure (.premove p s)
+  | ["pclear", p] => (parseIdx p).map .pclear
+  | "frame" :: t :: rest => do
+    let t ← parseIdx t
+    let fa ← parseFrameAddrX rest
+    pure (.frame t fa)
+  | "fsym" :: t :: nt :: rest => do
+    let t ← parseIdx t
+    let nt ← parseIdx nt
+    let fa ← parseFrameAddrX rest
+    pure (.frameSym t nt fa)
+  | _ => none
+
+inductive ThLine
+  | op (o : TOp)
+  | dump
+
+def parseThLine (l : String) : Option ThLine :=
+  match words l with
+  | ["pdump"] => some .dump
+  | _ => (parseTh l).map .op
+
 inductive Parsed
   | table (ls : List TLine)
   | profile (ls : List POp)
+  | threads (ls : List ThLine)
 
 def parse (ls : List String) : Option Parsed :=
   match ls with
@@ -87,6 +159,7 @@ def parse (ls : List String) : Option Parsed :=
     match words h with
     | ["mode", "table"] => (rest.mapM parseT).map .table
     | ["mode", "profile"] => (rest.mapM parseP).map .profile
+    | ["mode", "threads"] => (rest.mapM parseThLine).map .threads
     | _ => none
   | [] => none
 
@@ -146,11 +219,47 @@ def modelProfile (ls : List POp) : List String :=
       go (pstep st o) r (line :: acc)
   go PState.init ls []
 
+def isFrameOp : TOp → Option Nat
+  | .frame t _ => some t
+  | .frameSym t _ _ => some t
+  | _ => none
+
+def toutLine (orphan : Bool) (isFrame : Bool) : TOut → String
+  | .ok => "ok"
+  | .panic => if isFrame then "frame panic" else "panic"
+  | .handle n => s!"h {n}"
+  | .res r => if orphan then "frame orphan" else resolvedLine r
+
+/-- `tables k <ents> p0 <ents> p1 <ents> ..` -/
+def tablesLine (kernel : List M) (procs : List (List M)) : String :=
+  let rec ptoks (i : Nat) (ps : List (List M)) : List String :=
+    match ps with
+    | [] => []
+    | mp :: r => (s!"p{i}" :: mp.map entTok) ++ ptoks (i + 1) r
+  " ".intercalate (("tables" :: "k" :: kernel.map entTok) ++ ptoks 0 procs)
+
+def modelThreads (ls : List ThLine) : List String :=
+  let rec go (st : TState) (orphans : List Nat) (ls : List ThLine) (acc : List String) : List String :=
+    match ls with
+    | [] => acc.reverse
+    | .dump :: r => go st orphans r (tablesLine st.kernel.map (st.procs.map (·.map)) :: acc)
+    | .op o :: r =>
+      let (st', out) := tstep st o
+      let orphans' := match o, out with
+        | .newThread _, .panic => st.threads.length :: orphans
+        | _, _ => orphans
+      let line := match isFrameOp o with
+        | some t => toutLine (orphans.contains t) true out
+        | none => toutLine false false out
+      go st' orphans' r (line :: acc)
+  go TState.init [] ls []
+
 def model (ls : List String) : List String :=
   match parse ls with
   | none => ["bad-op"]
   | some (.table t) => modelTable t
   | some (.profile p) => modelProfile p
+  | some (.threads t) => modelThreads t
 
 /-! ### judge
 
@@ -253,10 +362,78 @@ def judgeProfile (ls : List POp) (outs : List String) : Bool × String :=
     | _, _ => (false, "number of output lines differs from number of operations")
   go [] ls outs 1
 
+/-- `mode threads`: the only references are the bare history's projections — `threadOwner` (the process passed to
+the `t`-th `thread` line), `procCount` / `owners` (how many handles were handed out), `mappingOps` (the mapping calls,
+then `kernelOps` / `procOps` / `resolveSpec` as in `mode profile`). Scope: handles that were handed out (the judge
+stops at the first call that passes any other handle), non-empty ranges, relative addresses within 32 bits. -/
+def judgeFrameX (hist : List TOp) (t : Nat) (fa : FrameAddrX) (o : String) : Option String :=
+  match threadOwner hist t with
+  | none => some s!"thread {t} was never created"
+  | some p =>
+    match fa with
+    | .abs a => judgeFrame (mappingOps hist) p a o
+    | .relIp v rel => if o = s!"frame lib {v} {rel}" then none else some s!"'{o}' for relative address {rel} in lib {v}"
+    | .relAra v rel => if o = s!"frame lib {v} {rel}" then none else some s!"'{o}' for relative address {rel} in lib {v}"
+    | .relRa v rel =>
+      if o = s!"frame lib {v} {rel - 1}" then none
+      else some s!"'{o}' for relative return address {rel} in lib {v}: expected one byte earlier"
+
+def sortedLive (h : List Op) : List M := (liveSpec h).mergeSort (fun a b => a.s ≤ b.s)
+
+def disjointSorted (l : List M) : Bool := (l.zip (l.drop 1)).all (fun (a, b) => a.e ≤ b.s)
+
+def judgeThreads (ls : List ThLine) (outs : List String) : Bool × String :=
+  let rec go (hist : List TOp) (ls : List ThLine) (outs : List String) (k : Nat) : Bool × String :=
+    match ls, outs with
+    | [], [] => (true, "ok")
+    | .dump :: r, o :: os =>
+      -- the profile's own tables: the kernel table and the table of every process handed out so far hold exactly the
+      -- live mappings of their history, ordered by start, pairwise disjoint
+      let mh := mappingOps hist
+      let kernel := sortedLive (kernelOps mh)
+      let procs := (List.range (procCount hist)).map (fun p => sortedLive (procOps p mh))
+      if o ≠ tablesLine kernel procs then
+        (false, s!"line {k}: the profile's tables are '{o}', live mappings of the history are '{tablesLine kernel procs}'")
+      else if !(disjointSorted kernel && procs.all disjointSorted) then
+        (false, s!"line {k}: stored mappings overlap: {o}")
+      else go hist r os (k + 1)
+    | .op op :: r, o :: os =>
+      if !handlesOk hist op then
+        (true, "ok (judged up to the first call with a handle that was never handed out, which is outside the statement)")
+      else
+        let next := fun (_ : Unit) => go (hist ++ [op]) r os (k + 1)
+        match op with
+        | .newProc =>
+          if o = s!"h {procCount hist}" then next ()
+          else (false, s!"line {k}: add_process returned '{o}' after {procCount hist} earlier processes")
+        | .newThread _ =>
+          if o = s!"h {(owners hist).length}" then next ()
+          else (false, s!"line {k}: add_thread returned '{o}' after {(owners hist).length} earlier threads")
+        -- frame creations are not part of the history any clause looks at (`owners`, `procCount`, `mappingOps`
+        -- ignore them): they are judged and not recorded
+        | .frame t fa =>
+          match judgeFrameX hist t fa o with
+          | some why => (false, s!"line {k}: thread {t}: {why}")
+          | none => go hist r os (k + 1)
+        | .frameSym t _ fa =>
+          match judgeFrameX hist t fa o with
+          | some why => (false, s!"line {k}: thread {t} (with symbol): {why}")
+          | none => go hist r os (k + 1)
+        | _ =>
+          match op.toPOp.bind addOf with
+          | some x =>
+            if x.e ≤ x.s then (true, "ok (judged up to the first empty-range add, which is outside the statement)")
+            else if o ≠ "ok" then (false, s!"line {k}: add [{x.s},{x.e}) answered {o}")
+            else next ()
+          | none => if o ≠ "ok" then (false, s!"line {k}: answered {o}") else next ()
+    | _, _ => (false, "number of output lines differs from number of operations")
+  go [] ls outs 1
+
 def judge (ops impl : List String) : Bool × String :=
   match parse ops with
   | none => (false, "bad-op")
   | some (.table t) => judgeTable t impl
   | some (.profile p) => judgeProfile p impl
+  | some (.threads t) => judgeThreads t impl
 
 end C11
